@@ -39,7 +39,9 @@ func init() {
 		only(c08guarded, func(n string) bool { return strings.Contains(n, "Channel)") }))
 	reg("C02.negotiated", "ORIG", "TOUCH and delivery use the connection's negotiated msg_timeout (shared with C04.negotiated)", 2, c04negotiated)
 	reg("C03.parse", "IVAL", "the RDY count cannot wrap between parsing and the range check (the ByteToBase10 obligations of C04.parse)", 1,
-		only(c04parse, func(n string) bool { return strings.Contains(n, "ByteToBase10") || strings.Contains(n, "protocolV2).RDY") }))
+		only(c04parse, func(n string) bool {
+			return strings.Contains(n, "ByteToBase10") || strings.Contains(n, "protocolV2).RDY")
+		}))
 	reg("C15.keep", "GUARD", "creating a registration that exists keeps its producers (shared with C14.keep)", 2, c14keep)
 	reg("C16.escape", "ORIG", "names are query-escaped in the lookupd queries nsqd makes (shared with C17.escape)", 10, c17escape)
 
